@@ -1150,6 +1150,11 @@ def model2_stream(chk, pid, items):
         Ms = sim2lib.run_model2(args, name=pid.lower() + 'm2', shard=4, timeout=(60 if chk.tier == 'quick' else 300), tolerate=True)
     except Exception as e:
         chk.broken.append(('model-evaluation-stage2', str(e)[-600:])); return
+    try:       # the decidable hypotheses of the Stage-2 theorems (Props/C01-C03 'multi' theorems), evaluated for every compared network
+        for (c, impl), (g, k) in zip(keep, sim2lib.eval_good2([(a[0], a[1]) for a in args], name=pid.lower() + 'g2')):
+            chk.count('multi:stage2-theorem-hypotheses good2b=%s cons2b=%s' % (g, k))
+    except Exception as e:
+        chk.broken.append(('evaluation of good2b', str(e)[-400:]))
     nskip = nslow = 0
     for (c, impl), M in zip(keep, Ms):
         if M is None:
